@@ -4,6 +4,7 @@ import (
 	"errors"
 	"io"
 	"strconv"
+	"strings"
 )
 
 var verifStatusText = "later"
@@ -280,4 +281,132 @@ func verif_C13_isolation() {
 	verifAssert(wfa && wfb && len(rb) == wantN, "C13.isolation-fresh-reply-count")
 	verifAssert(string(a) == string(b), "C13.isolation-later-message-gets-its-own-statuses")
 	verifReach("C13.isolation-end")
+}
+
+// verif_C13_smtp_equiv: an LMTP server (backend with or without per-recipient
+// support, which here leaves every status to its return value) must treat a
+// message for one or two recipients exactly as the SMTP server does: the same
+// callbacks, the same octets for the backend, and a final response of one reply
+// per recipient, in order, each with the SMTP reply's code and enhanced code and
+// the SMTP text prefixed with that recipient - for DATA and BDAT, a backend that
+// accepts, refuses with an SMTPError of arbitrary code 400..599 or fails with a
+// plain error, after reading everything or (when it fails) two octets, and a
+// size limit around the message size.
+func verif_C13_smtp_equiv() {
+	verifPreemptBound(0)
+	verifSchedForkBound(0)
+	bdat := nondetBool()
+	perRcpt := nondetBool()
+	readAll := nondetBool()
+	verdict := verifChoice(3)
+	code := nondetInt(400, 599)
+	nr := nondetInt(1, 2)
+	// (accepting a message without having read it breaks the Session contract)
+	assume(readAll || verdict != 0)
+	msg := "hello\r\n"
+	limit := []int64{0, int64(len(msg)) - 1, int64(len(msg))}[verifChoice(3)]
+	rcpts := []string{"r@v", "q@v"}[:nr]
+	type obs struct {
+		final []vreply
+		ok    bool
+		kinds []string
+		body  []byte
+	}
+	run := func(lmtp bool) obs {
+		var o obs
+		be := &vbackend{lmtpSession: lmtp && perRcpt}
+		consume := func(r io.Reader) error {
+			var e error
+			if readAll {
+				o.body, e = verifReadAll(r, 3)
+			} else {
+				buf := make([]byte, 2)
+				n, e2 := r.Read(buf)
+				o.body, e = buf[:n], e2
+			}
+			if e != nil && e != io.EOF {
+				return e
+			}
+			switch verdict {
+			case 1:
+				return &SMTPError{Code: code, EnhancedCode: EnhancedCode{code / 100, 9, 9}, Message: "refused"}
+			case 2:
+				return errors.New("backend down")
+			}
+			return nil
+		}
+		be.dataFn = func(_ *vsession, r io.Reader) error { return consume(r) }
+		be.lmtpFn = func(_ *vsession, r io.Reader, st StatusCollector) error { return consume(r) }
+		s, _ := verifServer(be)
+		s.LMTP = lmtp
+		s.MaxMessageBytes = limit
+		in := "EHLO c\r\n"
+		if lmtp {
+			in = "LHLO c\r\n"
+		}
+		in += "MAIL FROM:<s@v>\r\n"
+		for _, a := range rcpts {
+			in += "RCPT TO:<" + a + ">\r\n"
+		}
+		idx := 3 + nr
+		if bdat {
+			in += "BDAT " + strconv.Itoa(len(msg)) + " LAST\r\n" + msg
+		} else {
+			in += "DATA\r\n" + msg + ".\r\n"
+			idx++
+		}
+		in += "NOOP\r\n"
+		nfinal := 1
+		if lmtp {
+			nfinal = nr
+		}
+		vc, _, _ := verifServe(s, []byte(in), io.EOF)
+		reps, wf := verifParseReplies(vc.out)
+		if wf && len(reps) == idx+nfinal+1 && reps[idx+nfinal].code == 250 {
+			o.final, o.ok = reps[idx:idx+nfinal], true
+		}
+		for _, e := range be.trace {
+			k := e.kind
+			if k == "LMTPData" {
+				k = "Data"
+			}
+			o.kinds = append(o.kinds, k)
+		}
+		return o
+	}
+	a := run(false)
+	b := run(true)
+	verifObserve("c13eq", bdat, perRcpt, readAll, verdict, code, nr, limit, a.ok, b.ok)
+	verifAssert(a.ok, "C13.equiv-smtp-one-final-reply-then-command-mode")
+	verifAssert(b.ok, "C13.equiv-lmtp-one-reply-per-recipient-then-command-mode")
+	if !a.ok || !b.ok {
+		return
+	}
+	sm := a.final[0]
+	st := ""
+	if len(sm.lines) >= 1 {
+		st = sm.lines[0]
+		if sm.hasEn {
+			st = st[strings.IndexByte(st, ' ')+1:]
+		}
+	}
+	for i, r := range b.final {
+		verifAssert(r.code == sm.code && r.hasEn == sm.hasEn && r.enh == sm.enh, "C13.equiv-same-code-as-smtp")
+		verifAssert(len(r.lines) == len(sm.lines) && len(r.lines) == 1, "C13.equiv-same-shape-as-smtp")
+		if len(r.lines) == 1 {
+			bt := r.lines[0]
+			if r.hasEn {
+				bt = bt[strings.IndexByte(bt, ' ')+1:]
+			}
+			verifAssert(bt == "<"+rcpts[i]+"> "+st, "C13.equiv-text-is-smtp-text-with-recipient")
+		}
+	}
+	verifAssert(string(a.body) == string(b.body), "C13.equiv-same-octets")
+	verifAssert(len(a.kinds) == len(b.kinds), "C13.equiv-same-callbacks")
+	if len(a.kinds) == len(b.kinds) {
+		for i := range a.kinds {
+			verifAssert(a.kinds[i] == b.kinds[i], "C13.equiv-same-callbacks")
+		}
+	}
+	verifReach("C13.equiv-end")
 }
